@@ -135,37 +135,92 @@ def build_skeleton(sk):
 
 
 def placement_oracle(m: onnx.ModelProto):
-    """On the returned model alone: every value defined by a node sits in the LCA of the graphs that consume it."""
-    defs, uses, problems = {}, collections.defaultdict(list), []
+    """On the returned model alone: every operator application (all outputs of a node together; an inlined block as one unit)
+    sits in the LCA of the graphs that consume its values."""
+    import re
+
+    group_of, group_path, uses, problems = {}, {}, collections.defaultdict(list), []
+    blk = re.compile(r"^(.*?Inline_\d+)__")
+
+    def unit(n, idx, path):
+        mm = blk.match(n.name) or next((blk.match(o) for o in n.output if blk.match(o)), None)
+        return ("block", mm.group(1)) if mm else ("node", path, idx)
 
     def walk(g, path):
-        for n in g.node:
+        for idx, n in enumerate(g.node):
+            u = unit(n, idx, path)
+            group_path.setdefault(u, path)
             for o in n.output:
                 if o:
-                    defs[o] = path
+                    group_of[o] = u
             for i in n.input:
                 if i:
-                    uses[i].append(path)
+                    uses[i].append((path, u))
             for a in n.attribute:
                 if a.type == onnx.AttributeProto.GRAPH:
                     walk(a.g, path + (n.name + "." + a.name,))
         for o in g.output:
-            uses[o.name].append(path)
+            uses[o.name].append((path, None))
 
     walk(m.graph, ("main",))
-    for v, p in defs.items():
-        us = uses.get(v, [])
-        if not us:
-            continue  # e.g. unused optional outputs
-        l = us[0]
-        for q in us[1:]:
+    ext = collections.defaultdict(list)
+    for v, us in uses.items():
+        if v in group_of:
+            u = group_of[v]
+            ext[u] += [p for p, cu in us if cu != u]
+    for u, paths in ext.items():
+        if not paths:
+            continue
+        l = paths[0]
+        for q in paths[1:]:
             k = 0
             while k < min(len(l), len(q)) and l[k] == q[k]:
                 k += 1
             l = l[:k]
-        if l != p:
-            problems.append(f"value {v!r} is defined in {'/'.join(p)} but the innermost graph enclosing its uses is {'/'.join(l)}")
+        if l != group_path[u]:
+            problems.append(f"{u[0]} {u[1] if u[0] == 'block' else 'at ' + '/'.join(u[1]) + '#' + str(u[2])} is defined in {'/'.join(group_path[u])} "
+                            f"but the innermost graph enclosing its uses is {'/'.join(l)}")
     return problems
+
+
+def inline_with_unused_input(c: B.Case) -> bool:
+    """Does the program inline a model that does not read one of its inputs?  Passing a value to such an input is a use of the value
+    in the program's dataflow that is invisible in the emitted ModelProto, so the ModelProto-level innermost test does not apply."""
+    seen = set()
+
+    def visit(v):
+        opn = v._op
+        if id(opn) in seen:
+            return False
+        seen.add(id(opn))
+        if isinstance(opn, B._Inline):
+            read = {i for n in opn.model.graph.node for i in n.input} | {o.name for o in opn.model.graph.output}
+            def sub_reads(g):
+                r = set()
+                for n in g.node:
+                    r |= set(n.input)
+                    for a in n.attribute:
+                        if a.type == onnx.AttributeProto.GRAPH:
+                            r |= sub_reads(a.g)
+                return r
+            read |= sub_reads(opn.model.graph)
+            if any(i.name not in read for i in opn.model.graph.input):
+                return True
+        for x in opn.inputs:
+            if x is not None and visit(x):
+                return True
+        for at in opn.attrs.get_fields().values():
+            if isinstance(at, B.AttrGraph):
+                for r in at.value.requested_results.values():
+                    if visit(r):
+                        return True
+        if isinstance(opn, B.Function):
+            for r in opn.func_graph.requested_results.values():
+                if visit(r):
+                    return True
+        return False
+
+    return any(visit(v) for v in c.outs.values())
 
 
 def count_oracle(c: B.Case):
@@ -241,7 +296,7 @@ def run(run: Run) -> int:
         distinct.add(c.impl if c.model_proto is not None else repr(c.coq))
         probs = []
         if c.model_proto is not None:
-            probs += placement_oracle(c.model_proto)
+            probs += [] if inline_with_unused_input(c) else placement_oracle(c.model_proto)
             probs += count_oracle(c) if "skeleton" in c.meta else []
             if "skeleton" in c.meta and not c.meta["legal"]:
                 probs.append("a value depending on a Loop body's argument is used outside that body, but build returned a model")
